@@ -234,6 +234,30 @@ theorem C10_bad_crc_ignored (cfg : Cfg) (st : St) (now : Nat) (rx : RxBundle)
     (h : rx.crcOk = false) : recvBundle cfg st now rx = (st, []) :=
   recv_bad_crc cfg st now rx h
 
+/-- **The seen set only grows.** An identity seen once stays seen after ANY number of later
+    events (receptions of any other bundles, idle forwards, report sends): the memory is never
+    trimmed. -/
+theorem C10_seen_never_forgotten (cfg : Cfg) (st : St) (evs : List Ev) (id : Ident)
+    (h : id ∈ st.seen) : id ∈ (run cfg st evs).1.seen := by
+  induction evs generalizing st with
+  | nil => exact h
+  | cons e es ih =>
+    simp only [run]
+    exact ih _ ((step_dq cfg st e id (.delivered id) (Or.inl rfl)).1 h)
+
+/-- Hence a repeat of a bundle received at any earlier point of a history — however long the
+    history in between — is refused: no effect, no state change. -/
+theorem C10_repeat_refused_after_any_history (cfg : Cfg) (st : St) (now now' : Nat) (rx rx' : RxBundle)
+    (evs : List Ev) (hacc : accepted cfg st rx)
+    (hid : identOf rx'.primary rx'.blocks = identOf rx.primary rx.blocks) :
+    recvBundle cfg (run cfg (recvBundle cfg st now rx).1 evs).1 now' rx'
+      = ((run cfg (recvBundle cfg st now rx).1 evs).1, []) := by
+  apply recv_repeat
+  rw [hid]
+  apply C10_seen_never_forgotten
+  rw [recv_accepted cfg st now rx hacc, dispose_seen]
+  exact List.mem_cons_self
+
 end C10
 end Props
 end DtnVerif
